@@ -37,6 +37,8 @@ BAD = {
     "class-header-without-body": b"class Session",
     "function-header-without-body": b"def open(self):",
     "ts-class-header-without-body": b"export class Session extends Base",
+    # an import list left open at the end of the file (state that must not leak into the next file)
+    "truncated-multiline-import": b"import os\nfrom collections import (\n    OrderedDict,\n    defaultdict,\n",
     "deep-blocks": "".join("    " * i + "if a%d:\n" % i for i in range(60)).encode() + b"    " * 60 + b"pass\n",
     "only-comments": b"# a\n# b\n// c\n",
     "lone-surrogate-escape": "s = '\\ud800'\n".encode(),
@@ -71,6 +73,12 @@ def _proj():
         d = tempfile.mkdtemp(prefix="c11proj-")
         atexit.register(shutil.rmtree, d, True)
         triggers.write_project(d, names=set(HEALTHY))
+        # a duplicated block without a single parenthesis before it (state left over from a file with an open
+        # bracket would swallow it)
+        for n in (1, 2):
+            (Path(d) / "src" / ("ab_plain%d.py" % n)).write_text(
+                '"""Module %d."""\ntotal = 4\ncount = 5\nratio = 6\nlimit = 7\ntotal = total + 1\ncount = count + total\n'
+                'ratio = ratio - count\nlimit = limit * ratio\nshow(limit, %d)\n' % (n, n))
         _P["d"] = Path(d)
     return _P["d"]
 
@@ -102,7 +110,9 @@ def h_bad_content(ctx):
     heavy = kind in HEAVY and _TIER["t"] == "quick"      # seconds per rule and file: one run kind, one extension per language
     ext = ctx.pick("extension", (".py", ".ts", ".rs") if heavy else EXTS)
     how = ctx.pick("run", ("file-list",) if heavy else ("file-list", "directory", "cli"))
-    f = d / "src" / ("zz_offending" + ext)
+    # the offending file is processed after all healthy files, or before them
+    first = ctx.flag("offending_file_sorts_first") if not heavy else False
+    f = d / "src" / (("aa_offending" if first else "zz_offending") + ext)
     f.write_bytes(BAD[kind])
     tap = _Tap()
     lg = logging.getLogger("src.orchestrator.core")
